@@ -42,7 +42,7 @@ func runWorker(self, id, tier string, shard, n int, seed int64, tmp string) work
 	var wo workerOutcome
 	out := filepath.Join(tmp, fmt.Sprintf("w%d.json", shard))
 	skipFile := filepath.Join(tmp, fmt.Sprintf("w%d.skiplist", shard))
-	for attempt := 0; attempt < 8; attempt++ {
+	for attempt := 0; attempt < 16; attempt++ {
 		os.Remove(out)
 		os.Remove(out + ".skip")
 		cmd := exec.Command(self, "worker", id, tier, strconv.Itoa(shard), strconv.Itoa(n), strconv.FormatInt(seed, 10), out)
@@ -71,7 +71,11 @@ func runWorker(self, id, tier string, shard, n int, seed int64, tmp string) work
 			f, _ := os.OpenFile(skipFile, os.O_CREATE|os.O_APPEND|os.O_WRONLY, 0o644)
 			fmt.Fprintln(f, key)
 			f.Close()
-			if len(wo.skipped) >= 4 {
+			maxSkips := 12
+			if Lookup(id).HangIsViolation {
+				maxSkips = 4
+			}
+			if len(wo.skipped) >= maxSkips {
 				// repeated hangs / heap blow-ups: keep what the last attempt had found and stop
 				if b, perr := os.ReadFile(out + ".partial"); perr == nil {
 					var r Result
